@@ -579,8 +579,11 @@ pub fn run_replay<P: Property>(p: &P, path: &Path) -> i32 {
         println!("scratch kept under {}", scratch_root(id).display());
     }
     if o.failures.is_empty() {
+        if o.inconclusive.is_some() {
+            return 2;
+        }
         println!("replay: property={id} held on {}", path.display());
-        return if o.inconclusive.is_some() { 2 } else { 0 };
+        return 0;
     }
     println!("VIOLATION property={id} replay={}", path.display());
     for f in &o.failures {
